@@ -12,6 +12,12 @@ static int v_ctx_obj;
 #define V_MTU_FIXED 576
 #endif
 
+#ifdef V_SYM_SMALL_MTU
+#define V_FIX_MTU() do { g_cfg.mtu_fail = 0; } while (0)
+#else
+#define V_FIX_MTU() do { V_ASSUME(g_cfg.mtu == V_MTU_FIXED && !g_cfg.mtu_fail); g_cfg.mtu = V_MTU_FIXED; g_cfg.mtu_fail = 0; } while (0)
+#endif
+
 struct in_pq {
     struct v_cfg cfg;
     uint8_t frame[V_MTU_FIXED];
@@ -23,7 +29,7 @@ struct in_pq {
 #define PQ_PROLOGUE(FN) \
     V_INPUT(FN, struct in_pq, in); \
     V_ENV_MTU(in.cfg); \
-    V_ASSUME(g_cfg.mtu == V_MTU_FIXED && !g_cfg.mtu_fail); g_cfg.mtu = V_MTU_FIXED; g_cfg.mtu_fail = 0; \
+    V_FIX_MTU(); \
     g_ctx = &v_ctx_obj; \
     g_j = in.gj; \
     lltd_iface_state st; V_ZERO(st); \
@@ -37,7 +43,11 @@ struct in_pq {
 
 /* the MTU domain of the harness instance: the property's [576, 9216], or a small-frame instance (code uniform in MTU)
  * that brings the per-frame capacity below the bounded list length */
-#ifdef V_SMALL_MTU
+#if defined(V_SYM_SMALL_MTU)
+/* symbolic small MTU 54..135 (capacity 1..5): every residue class of (MTU-34) mod 20, with the over-sized transmit object */
+#define V_ENV_MTU(c) do { g_cfg = (c); V_ASSUME(g_cfg.mtu >= 54 && g_cfg.mtu <= 135 && !g_cfg.mtu_fail); \
+                          { struct v_cfg c2_ = g_cfg; c2_.mtu = 576; V_ASSUME(v_cfg_ok(&c2_)); } v_env_reset(); } while (0)
+#elif defined(V_SMALL_MTU)
 #define V_ENV_MTU(c) do { g_cfg = (c); V_ASSUME(g_cfg.mtu == V_MTU_FIXED); g_cfg.mtu = V_MTU_FIXED; \
                           { struct v_cfg c2_ = g_cfg; c2_.mtu = 576; V_ASSUME(v_cfg_ok(&c2_)); } v_env_reset(); } while (0)
 #else
